@@ -70,6 +70,8 @@ POS = {
     "schemacomment": ("CREATE SCHEMA sc COMMENT = {L};", (0, "comment"), "sql", None),
     "alterdefault": ("CREATE TABLE t (a int, b int);\nALTER TABLE t ADD CONSTRAINT df DEFAULT {L} FOR a;", (0, "columns", 0, "default"), "sql", None),
 }
+# the column is declared with one default and re-declared with another by a later statement of the script: the later literal is the one reported
+POS["modifydefault"] = ("CREATE TABLE t (\n  a varchar(50) DEFAULT 'old one',\n  b int\n);\nALTER TABLE t MODIFY COLUMN a varchar(50) DEFAULT {L};", (0, "columns", 0, "default"), "sql", None)
 POS["bq_coloption"] = ("CREATE TABLE p.d.t (\n  a INT64 OPTIONS(description={L}),\n  b INT64\n);", (0, "columns", 0, "options", 0, "description"), "bigquery", None)
 POS["bq_taboption"] = ("CREATE TABLE p.d.t (\n  a INT64\n) OPTIONS(description={L});", (0, "options", 0, "description"), "bigquery", None)
 # string-valued Snowflake table options
@@ -80,7 +82,7 @@ POS["sf_file_format_type"] = ("CREATE TABLE t (\n  a int\n) STAGE_FILE_FORMAT = 
 POS["sf_null_if"] = ("CREATE TABLE t (\n  a int\n) FILE_FORMAT = (TYPE = CSV NULL_IF = ('NA', {L}));", (0, "table_properties", "file_format", "NULL_IF", 1), "snowflake", None)
 # double-quoted literals (BigQuery / MySQL style) are read as literals in every position but these three (calibrated on the pinned tree)
 NO_DOUBLE_QUOTED = {"colcomment", "schemacomment", "tabcomment_hql"}
-MODE_FREE_POSITIONS = {"default", "colcomment", "check", "tcheck", "enumtype", "schemacomment", "alterdefault"}
+MODE_FREE_POSITIONS = {"default", "colcomment", "check", "tcheck", "enumtype", "schemacomment", "alterdefault", "modifydefault"}
 EXTRA_PATHS = {"alterdefault": [(0, "alter", "defaults", 0, "value")]}
 _base = {}
 
@@ -395,4 +397,6 @@ def run_shard(ctx):
         s = "".join(rng.choice("0123456789") for _ in range(nd))
         if rng.random() < 0.2:
             s = "0" * rng.randint(1, 3) + s
-        check_case(ctx, {"gen": "numeric", "literal": s, "position": rng.choice(["default", "alterdefault"]) if False else "default", "numeric": True})
+        if j < 8:
+            s = ["0", "00", "0", "000", "7", "0", "10", "0"][j]        # zero first: the value a truth test takes for "nothing written"
+        check_case(ctx, {"gen": "numeric", "literal": s, "position": "modifydefault" if j % 2 else "default", "numeric": True})
